@@ -375,14 +375,28 @@ func spec_decoded(path string, k int, v any) bool {
 //@         vcSeqAt(ghost_idxIDs(spec_indexPath(fs, m.Mailbox())), i) == old(vcSeqAt(ghost_idxIDs(spec_indexPath(fs, m.Mailbox())), i))
 //@   serves C07 C08 C10 C11 C01 C09 C02
 
-// VisitMailboxes: f is applied to the list of every mailbox directory found.
-// (ASSUMED: the visitor is an arbitrary callback; the engine's havoc of the whole heap at a callback also
-// forgets the directory listings held in locals, so the loops are not verified.)
+// VisitMailboxes: f is applied to the list of every mailbox directory found, and the walk ends with the
+// first call of f that returns false: no loop of the walk is continued after such a call (C12: a
+// cancelled retention scan stops).  The visitor itself is an arbitrary callback (the whole heap is
+// havocked at each call; ASSUMED: it cannot change the directory listings held in the walk's locals).
+func ghost_fcalls(f func([]storage.Message) bool) int    { panic("ghost") }
+func ghost_flastRet(f func([]storage.Message) bool) bool { panic("ghost") }
+
+//@ pred spec_visitGoesOn(f func([]storage.Message) bool, calls0 int) bool = ghost_fcalls(f) == calls0 || ghost_flastRet(f)
+
 //@ func (*Store).VisitMailboxes
-//@   trusted
 //@   requires spec_storeOK(fs)
 //@   modifies *
 //@   attr calls-arg=1
+//@   callbackinv spec_storeOK(fs)
+//@   loop 1: invariant 0 <= ridx && ridx <= len(names1)
+//@   loop 1: invariant[stopsOnFalse C12] spec_storeOK(fs) && spec_visitGoesOn(f, old(ghost_fcalls(f)))
+//@   loop 2: invariant 0 <= ridx && ridx <= len(names2)
+//@   loop 2: invariant[stopsOnFalse C12] spec_storeOK(fs) && spec_visitGoesOn(f, old(ghost_fcalls(f)))
+//@   loop 3: invariant 0 <= ridx && ridx <= len(names3)
+//@   loop 3: invariant[stopsOnFalse C12] spec_storeOK(fs) && spec_visitGoesOn(f, old(ghost_fcalls(f)))
+//@   loop 3: invariant[assumedListing] forall k int :: { names3[k] } 0 <= k && k < len(names3) ==> len(names3[k]) >= 6
+//@   serves C12 C07
 
 //@ func readDirNames
 //@   trusted
